@@ -500,6 +500,13 @@ func (in *Interp) strEq(a, b Str) Value {
 	if r, ok := in.alignEq(a, b); ok {
 		return r
 	}
+	// comparison with the empty string: a pure length test
+	if len(a.p) == 0 {
+		return boolVal(in.tt.Eq(b.LenTerm(in.tt), in.tt.BVConst(0, 64)))
+	}
+	if len(b.p) == 0 {
+		return boolVal(in.tt.Eq(a.LenTerm(in.tt), in.tt.BVConst(0, 64)))
+	}
 	// length disequality shortcut is left to the solver (lengths are tied)
 	eq := in.tt.Eq(a.SeqTerm(in.tt), b.SeqTerm(in.tt))
 	// help the solver: equal sequences have equal BV lengths
